@@ -161,7 +161,15 @@ impl<'a> Xw<'a> {
                 }
             }
         } else {
+            // white space around a number is not part of the number
+            let pad = self.rng.chance(1, 10);
+            if pad {
+                self.out.push_str(*self.rng.pick(&[" ", "\n", "\t ", "\r\n  "]));
+            }
             self.out.push_str(text);
+            if pad {
+                self.out.push_str(*self.rng.pick(&[" ", "\n", " \t", "\n  "]));
+            }
         }
         self.out.push_str("</");
         self.out.push_str(&t);
